@@ -30,6 +30,7 @@ import (
 	"sync"
 	texttemplate "text/template"
 	"time"
+	"unicode"
 
 	"golang.org/x/crypto/ssh"
 	"golang.org/x/net/context"
@@ -1160,12 +1161,28 @@ func getLoginDestination(r *http.Request) string {
 	loginDestination := profilePath
 	if r.FormValue("login_destination") != "" {
 		inboundLoginDestination := r.Form.Get("login_destination")
-		if strings.HasPrefix(inboundLoginDestination, "/") &&
-			!strings.HasPrefix(inboundLoginDestination, "//") {
+		if isSafeLoginDestination(inboundLoginDestination) {
 			loginDestination = inboundLoginDestination
 		}
 	}
 	return loginDestination
+}
+
+// isSafeLoginDestination returns true if the destination is a rooted relative
+// path that browsers cannot interpret as a different origin: browsers treat a
+// backslash like a slash and drop tabs and newlines, so those (and any other
+// control character) are not allowed anywhere in the destination.
+func isSafeLoginDestination(destination string) bool {
+	if !strings.HasPrefix(destination, "/") ||
+		strings.HasPrefix(destination, "//") {
+		return false
+	}
+	for _, c := range destination {
+		if c == '\\' || unicode.IsControl(c) {
+			return false
+		}
+	}
+	return true
 }
 
 //const loginPath = "/api/v0/login"
